@@ -213,7 +213,7 @@ func c14(w *core.World, r *core.Report) {
 	ruleBaselineFrontier(w, r)
 	r.Rule("R14.12", "a root checkpoint that overrides the stored frontier removes the journal and then the snapshot it replaces", 2)
 	ruleRootOverrideDropsFrontierState(w, r)
-	r.Rule("R14.14", "in sync mode the start point is what the target committed: the in-process resume point (last acknowledged unit) is used for a start point only under a test of the replay mode that excludes sync", 1)
+	r.Rule("R14.15", "in sync mode the start point is what the target committed: the in-process resume point (last acknowledged unit) is used for a start point only under a test of the replay mode that excludes sync", 1)
 	ruleStartPointFromTargetInSyncMode(w, r)
 	r.Rule("R14.9", "every valid replay mode is claimed by exactly one recovery format (UsesLatest xor UsesFrontier)", 3)
 	ruleModeFamilies(w, r)
